@@ -15,8 +15,9 @@ Listable == {"a", "b", "ghost"}
 Nodes == {"n1", "n2"}
 \* two ordinary instants and the two ends of the representable range (the zero time is a legal configured time)
 Clocks == {"2001-02-03T04:05:06Z", "2031-12-30T23:59:58Z", "0001-01-01T00:00:00Z", "9999-12-31T23:59:59Z"}
-\* schema IRIs: both default, both alternative, or only one of the two changed
-Configs == [includeDate : BOOLEAN, clock : Clocks, schema : {"default", "alt", "altLex", "altRep"}]
+\* schema IRIs: both default, both alternative, only one of the two changed, or left empty (the zero value of the
+\* field: both, only the report schema, only the lexical schema)
+Configs == [includeDate : BOOLEAN, clock : Clocks, schema : {"default", "alt", "altLex", "altRep", "none", "noRep", "noLex"}]
 ProfileNames == {"C03 profile", "API \"strict\" rules: 100% 'quoted' \\ back"}
 
 Profiles == [name : ProfileNames, listed : [LevelSet -> SUBSET Listable], defined : SUBSET Names,
